@@ -113,7 +113,12 @@ func (d *deferError) Error() error {
 	select {
 	case d.err = <-d.errCh:
 	case <-d.ShutdownCh:
-		d.err = ErrRaftShutdown
+		// Prefer a result that was delivered before the shutdown
+		select {
+		case d.err = <-d.errCh:
+		default:
+			d.err = ErrRaftShutdown
+		}
 	}
 	return d.err
 }
